@@ -1,7 +1,7 @@
 (* Prop_C05.v — property theorems for C05, and nothing else: each statement is closed
    by `exact <lemma>` and followed by Print Assumptions. *)
 From Dig Require Import Base Sig State Graph GraphProofs Register Resolve Run Spec Check
-  ErrTable Err ErrTableCheck P_Frame.
+  ErrTable Err ErrTableCheck P_Frame P_Term.
 
 (* ---- C05: the cycle detector decides cyclicity and returns real cycles;
         non-deferred containers never hold a cyclic scope graph ---- *)
@@ -15,3 +15,26 @@ Theorem C05_reachable_acyclic : forall cfg b du h a, wf_scopes h = true -> cfg_d
   ~ cyclic (scope_graph (state_after cfg b du h) a).
 Proof. exact P_Frame.reachable_acyclic. Qed.
 Print Assumptions C05_reachable_acyclic.
+
+(* ---- C05: resolution always terminates with the fuel Invoke supplies, never
+        re-enters a constructor or decorator that is on the stack (every frame
+        is popped: quiescence), and the model never reaches a branch in which
+        dig itself would panic ---- *)
+Theorem C05_never_aborts : forall cfg b du h,
+  wf_scopes h = true -> wf_keys h = true ->
+  forall o, In o (run cfg b du h) ->
+  match so_verdict o with VAbort (ABug _) | VAbort AFuel => False | _ => True end.
+Proof. exact P_Term.run_never_aborts. Qed.
+Print Assumptions C05_never_aborts.
+
+Theorem C05_fuel_enough : forall cfg b du f t st,
+  tpre t st -> G st -> need t st <= f -> fst (eval cfg b du f t st) <> Abort AFuel.
+Proof. exact P_Term.eval_fuel_enough. Qed.
+Print Assumptions C05_fuel_enough.
+
+Theorem C05_quiescent : forall cfg b du h,
+  wf_scopes h = true -> wf_keys h = true ->
+  (forall n, c_onstack (get_node (state_after cfg b du h) n) = false) /\
+  (forall d, d_state (get_dec (state_after cfg b du h) d) <> DOnStack).
+Proof. exact P_Term.quiescent_state_after. Qed.
+Print Assumptions C05_quiescent.
